@@ -92,6 +92,7 @@ def run(chk):
         period = rng.choice([40, 60, 100])
         burst = rng.choice([1, 2, 3])
         mode = "err" if i % 2 == 0 else "block"
+        usage = "+same" if (i // 2) % 2 == 1 else ""      # every request through one service value, or a fresh clone each
         evs = []
         # two distinct identities that differ in one byte only (the first, a middle or the last one: see `peer` in the driver)
         pa, pb = rng.choice([(1, 2), (2, 3), (6, 12), (3, 9), (4, 5), (0, 4), (8, 14)])
@@ -99,13 +100,13 @@ def run(chk):
             for j in range(burst + 3):
                 evs.append("%d@%d" % (p, 0 if p == pa else 5))
         evs.append("%d@%d" % (pa, period * (burst + 2)))
-        rl.append("ratelayer %s %d %d %s" % (mode, period, burst, " ".join(evs)))
+        rl.append("ratelayer %s%s %d %d %s" % (mode, usage, period, burst, " ".join(evs)))
     ri = run_impl("layers", rl, shards=len(rl))
     for c, a in zip(rl, ri):
         chk.evaluations += 1
         chk.count("ratelayer")
         t = c.split()
-        mode, period, burst = t[1], int(t[2]), int(t[3])
+        mode, period, burst = t[1].split("+")[0], int(t[2]), int(t[3])
         if a.startswith(("PANIC", "CRASH", "TIMEOUT", "HANG")):
             chk.monitor_fail("rate limit layer panicked / hung", dict(case=c, impl=a))
             continue
